@@ -413,7 +413,9 @@ class RefTarget:
             return 0x08, [], b""
         # where does the route lead?
         target = self
-        if self.expected_route is not None and bytes(route) != self.expected_route and rsegs:
+        if self.cfg.get("ucsend_any_route"):
+            pass
+        elif self.expected_route is not None and bytes(route) != self.expected_route and rsegs:
             # same chassis, other slot?
             if bytes(route[:-2]) == self.expected_route[:-2] and rsegs[-1][1] == 1 and len(rsegs[-1][2]) == 1:
                 slot = rsegs[-1][2][0]
